@@ -330,6 +330,7 @@ def huge_backlog(ctx, tmpdir):
     res = P.run_pipeline(case, data, tmpdir, strategy=strat)
     ctx.count("huge_backlog_runs")
     ctx.maxi("queue_depth", res.sched.max_queue_depth)
+    ctx.maxi("blocks_read_while_the_writer_did_not_run", res.writer_backlog)
     ctx.case(stable_hash(["backlog", nblocks, case["saver"], res.sched.steps]), True)
     check_run(ctx, case, data, res, expected, tmpdir)
 
@@ -594,7 +595,7 @@ def inconclusive(merged, tier):
             "region_dirs_checked", "region_files_checked", "runs_on_empty_stream", "runs_on_event_free_stream", "runs_with_a_stop", "runs_with_short_reads",
             "big_audio_runs", "runs_with_files_of_an_earlier_run_in_the_way", "runs_with_blocks_that_look_like_internal_messages", "saver_runs_over_an_overlapping_reader", "line_mode_runs", "instruction_mode_runs", "all_module_line_mode_runs", "timeouts_fired", "systematic_schedules", "systematic_pipelines_fully_enumerated", "stress_runs", "stress_files_checked", "huge_backlog_runs", "raw_export_runs", "unencodable_export_runs", "two_pipeline_runs", "timeout_marathon_runs"]
     out = [f"monitor never observed {k}" for k in need if c.get(k, 0) == 0]
-    if c.get("max:queue_depth", 0) < 16384:
+    if max(c.get("max:queue_depth", 0), c.get("max:blocks_read_while_the_writer_did_not_run", 0)) < 16384:
         out.append("the writer never lagged by more than 16384 blocks")
     if c.get("inconclusive_runs", 0) > max(3, c.get("scheduled_runs", 0) // 50):
         out.append(f"{c['inconclusive_runs']} runs hit a step/wall cap")
